@@ -173,6 +173,16 @@ def stepBin (ps : PState) (op via a b : String) (optToks : List String) : PState
   if !(isArith || ordCmpOps.contains op || eqCmpOps.contains op) then (ps.failVar, .fields "r=badprog") else
   match parseOperand ps a, parseOperand ps b with
   | .ten aId x, .ten bId y =>
+    -- aliasing: when the reuse tensor *is* the second operand, `handleFuncOpts` (which toggles the
+    -- reuse tensor's order flag to the first operand's) has modified that operand before
+    -- `prepDataVV` looks at it
+    let flip (d : Dense) : Dense := { d with ap := { d.ap with o := { d.ap.o with col := x.ap.o.col } } }
+    let aliasB := po.reuseId == some bId && po.incrId.isNone && y.ap.o.col != x.ap.o.col && x.dt == y.dt &&
+      shapeEq x.shape y.shape && (y.win.len : Int) == totalSize x.shape
+    let y := if aliasB then flip y else y
+    let po := if aliasB then { po with o := { po.o with reuse := po.o.reuse.map flip } } else po
+    let vv (aId : Nat) (x y : Dense) :=
+      applyEng ps aId po (if isArith then engArithVV ps.st op tc x y po.o else engCmpVV ps.st op tc x y po.o)
     if via == "meth" then vv aId x y
     else if !isScalar y.shape && !isScalar x.shape then vv aId x y
     else if !isScalar y.shape then
